@@ -23,8 +23,9 @@ E2E_ASSUME = [
 CHECKS = {
     "C01": {
         "module": "Vanguard.Props.C01", "namespace": "Vanguard.C01", "streams": ["e2e", "rest"],
-        "partial": "per-message transformation is proved for every world satisfying the codec/compressor laws; whole-stream fidelity "
-                   "is checked against ground truth on fake codecs (raw/hexa/rev) and RLE compressors, not on real proto/json/gzip",
+        "partial": "per-message transformation is proved for every world satisfying the codec/compressor laws; whole request streams on the re-encoding "
+                   "path are proved to reach the backend as exactly the converted messages in order (any read sizes); for the re-framing path and the "
+                   "response direction whole-stream fidelity is checked against ground truth on fake codecs (raw/hexa/rev) and RLE compressors, not on real proto/json/gzip",
         "assumptions": E2E_ASSUME + ["WorldLaws (decode∘encode = id, decompress∘compress = id, compressed output non-empty) are hypotheses"],
     },
     "C02": {
